@@ -94,6 +94,7 @@ def rules(ctx, tier):
                     "%s at %s under %s" % (name, site_where(site), sorted(h)),
                     "%s at %s is not under both the state write lock and the WAL lock (held: %s)" % (
                         name, site_where(site), sorted(h)), site_where(site))
+    append_apply_atomic(ctx, r)
     r.need(2, "snapshot write/publish instantiation sites")
     out.append(r.finish())
 
@@ -101,6 +102,14 @@ def rules(ctx, tier):
              "reference counts / statistics differ before and after a reopen")
     load_rebuilds(ctx, r, loaders, cbs)
     r.need(3, "refcount per insert, recompute before replay")
+    out.append(r.finish())
+
+    r = Rule("R7", "the replayer reports the maximum version it has seen (seeded with the snapshot version): the next "
+                   "version can never collide with a persisted one",
+             "after a restart a new operation gets a version at or below the snapshot's: it is applied in memory, "
+             "acknowledged, and skipped as 'already checkpointed' by every later open")
+    highest_version_accumulator(ctx, r)
+    r.need(4, "seed, updates, every-record")
     out.append(r.finish())
 
     r = Rule("R6", "replay applies every record it accepted, except those at or below the snapshot version",
@@ -393,3 +402,183 @@ def replay_skips(ctx, r):
             r.check(n_skip >= 1, "skip-exists", b, "%d skip branch(es) in the replay loop" % n_skip,
                     "no checkpoint-version skip found in the replay loop of %s (already-snapshotted records would be "
                     "applied twice)" % b.path)
+
+
+def highest_version_accumulator(ctx, r):
+    """The replayer returns the highest version it has seen: the returned local is seeded with the checkpoint
+    version and every later assignment is `max(previous, record.version)` (or `record.version` when there was
+    no previous value / under a `>` comparison). Anything else can make the next version collide with a
+    persisted one."""
+    prog = ctx.prog
+    from ..prov import root_local
+    for b in prog.bodies.values():
+        cbsites = [s for s in b.calls() if s.path in FN_TRAIT_CALLS and s.callee.get("rk") != "virtual"
+                   and any(how == "param" for _, how in prog.call_targets(s))
+                   and "INDEX_MUTATE" in sem_set(ctx.may.site_events(s))]
+        if not cbsites or b.is_closure:
+            continue
+        sl = Slicer(ctx.world, b)
+        # returned local
+        H = None
+        for bb in b.normal_blocks():
+            for s in b.stmts(bb):
+                if s["k"] == "assign" and s["lhs"]["l"] == 0 and not s["lhs"]["p"] and s["rv"]["k"] == "agg" \
+                        and s["rv"].get("vn") == "Ok" and s["rv"]["ops"]:
+                    h = root_local(b, s["rv"]["ops"][0])
+                    if isinstance(h, int) and len(b.assignments().get(h, [])) >= 2:
+                        H = h
+        if H is None:
+            r.bad("highest-local", b, "cannot find the running 'highest version' value returned by %s" % b.path)
+            continue
+        loops = {}
+        for hb in b.normal_blocks():
+            if any(b.dominates(hb, p) for p in b.preds(hb)):
+                loops[hb] = cfgutil.natural_loop(b, hb)
+        in_loop = set().union(*loops.values()) if loops else set()
+
+        def terminals(l, depth=0, seen=None):
+            seen = seen or set()
+            out = []
+            if l in seen or depth > 8:
+                return out
+            seen.add(l)
+            for (dbb, j, rv) in b.assignments().get(l, []):
+                if j == "term":
+                    out.append((dbb, "call", rv))
+                elif rv["k"] == "use":
+                    pl = place_of(rv["op"])
+                    if pl is not None and not pl["p"] and l != pl["l"] and not (1 <= pl["l"] <= b.argc) \
+                            and b.assignments().get(pl["l"]):
+                        out += terminals(pl["l"], depth + 1, seen)
+                    else:
+                        out.append((dbb, "use", rv["op"]))
+                elif rv["k"] == "agg" and rv.get("vn") == "Some" and rv["ops"]:
+                    pl = place_of(rv["ops"][0])
+                    if pl is not None and not pl["p"] and b.assignments().get(pl["l"]) and not (1 <= pl["l"] <= b.argc):
+                        out += terminals(pl["l"], depth + 1, seen)
+                    else:
+                        out.append((dbb, "use", rv["ops"][0]))
+                else:
+                    out.append((dbb, "other", rv))
+            return out
+
+        def from_H(op):
+            pl = place_of(op)
+            seen = set()
+            while pl is not None:
+                if pl["l"] == H:
+                    return True
+                if pl["l"] in seen:
+                    return False
+                seen.add(pl["l"])
+                defs = b.assignments().get(pl["l"], [])
+                if len(defs) != 1 or defs[0][1] == "term":
+                    return False
+                rv = defs[0][2]
+                if rv["k"] == "use":
+                    pl = place_of(rv["op"])
+                elif rv["k"] in ("ref",):
+                    pl = rv["place"]
+                else:
+                    return False
+            return False
+
+        def is_record_version(op):
+            lv = sl.leaves_of_operand(op)
+            return bool(lv) and all(l[-1] and "version" in l[-1][-1] and l[0] == "call" for l in lv)
+
+        n_init = n_upd = 0
+        for (dbb, kind, x) in terminals(H):
+            where = "%s:%d" % (b.file, b.blocks[dbb]["span"]["line"])
+            if dbb not in in_loop:
+                lv = sl.leaves_of_operand(x) if kind == "use" else set()
+                ok = kind == "use" and bool(lv) and all(l[0] == "param" and l[2] for l in lv)
+                n_init += 1
+                r.check(ok, "highest-seed", b, "the running maximum is seeded with the checkpoint version (%s)" % where,
+                        "the running maximum is seeded at %s with %s" % (where, sorted(fmt_leaf(l) for l in lv) or kind), where)
+                continue
+            n_upd += 1
+            if kind == "call" and term_path(x) in ("std::cmp::Ord::max", "std::cmp::max"):
+                a0, a1 = x["args"][0], x["args"][1]
+                ok = (from_H(a0) and is_record_version(a1)) or (from_H(a1) and is_record_version(a0))
+                r.check(ok, "highest-update:max", b, "update at %s: max(previous, record.version)" % where,
+                        "the max() at %s does not combine the previous maximum with the record's version" % where, where)
+            elif kind == "use" and is_record_version(x):
+                # only where there is no previous value, or under `version > previous`
+                ok = False
+                for sw in b.normal_blocks():
+                    c = cfgutil.switch_condition(b, sw)
+                    if not c:
+                        continue
+                    if c[0] == "discr" and not c[1]["p"] and c[1]["l"] == H:
+                        e = cfgutil.switch_edges(b, sw)
+                        none_t = e.get(0, e["otherwise"] if 1 in e else None)
+                        if none_t is not None and cfgutil.edge_dominates(b, (sw, none_t), dbb):
+                            ok = True
+                    cc = cfgutil.cmp_true_edge(b, sw)
+                    if cc and cc[0] in ("Gt", "Lt", "Ge", "Le"):
+                        op, p, q, t_true, t_false = cc
+                        if cc[0] in ("Gt", "Ge") and is_record_version(p) and from_H(q) and t_true is not None \
+                                and cfgutil.edge_dominates(b, (sw, t_true), dbb):
+                            ok = True
+                        if cc[0] in ("Lt", "Le") and from_H(p) and is_record_version(q) and t_true is not None \
+                                and cfgutil.edge_dominates(b, (sw, t_true), dbb):
+                            ok = True
+                r.check(ok, "highest-update:first", b,
+                        "update at %s: record.version taken only when there is no previous maximum (or it is larger)" % where,
+                        "the running maximum is overwritten with a record's version at %s without comparing it to the "
+                        "previous maximum" % where, where)
+            else:
+                desc = term_path(x) if kind == "call" else (sorted(fmt_leaf(l) for l in sl.leaves_of_operand(x)) if kind == "use" else kind)
+                r.bad("highest-update:other", b,
+                      "the running maximum is overwritten at %s with %s (not max(previous, record.version)): a trailing "
+                      "empty or short segment can lower it below a persisted version" % (where, desc), where)
+        r.check(n_init >= 1 and n_upd >= 1, "highest-shape", b, "%d seed(s), %d in-loop update(s)" % (n_init, n_upd),
+                "the running maximum in %s has %d seed(s) and %d in-loop update(s)" % (b.path, n_init, n_upd))
+        # every record read reaches an update before the next record is read
+        for c in cbsites:
+            headers = [s for s in b.calls() if (s.path or "").endswith("Iterator::next") and b.dominates(s.bb, c.bb)
+                       and s.bb in cfgutil.reach(b, c.term["t"])]
+            if not headers:
+                continue
+            h = max(headers, key=lambda s: len(b.dominators()[s.bb]))
+            upd_blocks = [dbb for (dbb, kind, x) in terminals(H) if dbb in cfgutil.natural_loop(b, h.bb)]
+            loop = cfgutil.natural_loop(b, h.bb)
+            outside = set(b.normal_blocks()) - loop
+            rf = ctx.must(None).rf(b)
+            # from the Some edge of the item: paths back to the header avoiding all update blocks
+            some_t = None
+            for x in cfgutil.reach(b, h.term["t"], removed_blocks=list(outside)):
+                cnd = cfgutil.switch_condition(b, x)
+                if cnd and cnd[0] == "discr" and not cnd[1]["p"] and cnd[1]["l"] == h.term["dest"]["l"]:
+                    e = cfgutil.switch_edges(b, x)
+                    some_t = e.get(1, e["otherwise"] if 0 in e else None)
+                    break
+            if some_t is None:
+                continue
+            back = cfgutil.reach(b, some_t, removed_blocks=upd_blocks + list(outside))
+            r.check(h.bb not in back, "highest-every-record", b,
+                    "every record read in the loop at %s updates the running maximum before the next one is read" % site_where(h),
+                    "a record can be read in the loop at %s without updating the running maximum" % site_where(h), site_where(h))
+
+
+def append_apply_atomic(ctx, r):
+    """An operation's append and its apply happen under one hold of the state write lock, so no snapshot
+    (which needs that lock) can fall between them and claim a version whose effect it lacks."""
+    from .c05 import restricted_must_entry as _rme
+    L = ctx.locks
+    live_reach = ctx.prog.reachable_bodies(ctx.live_roots())
+    m_entry = _rme(ctx, ctx.live_roots())
+    for name in ("WAL_WRITE", "INDEX_MUTATE"):
+        for site in ctx.sem_sites(name):
+            p = site.body.path
+            if p not in live_reach or p not in m_entry:
+                continue
+            held = L.bl[p].held_before_term(site.bb)
+            if held is None:
+                continue
+            m = m_entry[p] | held[1]
+            r.check(("STATE", "w") in m, "%s-under-state-lock" % name, site.body,
+                    "%s at %s under the state write lock" % (name, site_where(site)),
+                    "%s at %s happens without the state write lock: a checkpoint can snapshot between this op's append "
+                    "and its apply (held: %s)" % (name, site_where(site), sorted(m)), site_where(site))
